@@ -1,6 +1,8 @@
 import Cppcms.C19.Lemmas
 import Cppcms.C19.JsonC11
 import Cppcms.C11.Props
+import Cppcms.C06.Lemmas
+import Cppcms.C07.Props
 /-!
 # C19 — property theorems
 
@@ -126,12 +128,118 @@ theorem json_value_roundtrip {N : Type} (ops : C11.NumOps N) (fin : N → Prop) 
     (json_law_from_C11 ops fin rt hlaw v hu hs hf hk hd hfix) hlen
   exact ⟨s, h⟩
 
-/-- **Session / cache convenience calls** (`session_interface::store_data` / `fetch_data`,
-`cache_interface::store_data` / `fetch_data`): they are `serialization_traits<T>::save` into a string, the
-store's `set`/`store`, then `get`/`fetch` and `serialization_traits<T>::load` (the translator checks that the
-four bodies still have exactly this shape, `Gen.wrappersAreCompositions`).  For any store whose `get` returns
-what `set` stored under the key (that law is what properties C06 / C07 establish for the session and the
-cache; here it is the explicit hypothesis `hstore`), the object comes back unchanged. -/
+/-! ## the session and cache convenience calls
+
+`session_interface::store_data(key,obj)` is `serialization_traits<T>::save(obj,buffer); set(key,buffer)` and
+`fetch_data` is `buffer = get(key); serialization_traits<T>::load(buffer,obj)`; `cache_interface::store_data` /
+`fetch_data` are the same around `store` / `fetch` (the translator checks that the four bodies still have exactly this
+shape: `Gen.wrappersAreCompositions`).  `serialization_traits<T>::save` is `save ty` (an archive, `T::save`, `a.str()`),
+`load` is `loadArchive ty`.  The store side is the model of C06 (session: `setValue`, `dfind`, `saveData`, `loadData`)
+and of C07 (cache: `step`/`Op.store`/`Op.fetch`), with their own theorems supplying what was an abstract law before. -/
+
+/-- C06's `dfind` finds an entry that is a member of the map -/
+theorem dfind_mem' {k : C06.Key} {e : C06.Entry} {d : C06.Data} (h : C06.dfind k d = some e) : (k, e) ∈ d := by
+  induction d with
+  | nil => cases h
+  | cons p rest ih =>
+    obtain ⟨k0, e0⟩ := p
+    simp only [C06.dfind] at h
+    split at h
+    · rename_i hk; subst hk; cases h; exact List.mem_cons_self
+    · exact List.mem_cons_of_mem _ (ih h)
+
+/-- `session_interface::set(key,value)` on the session's data map: the entry found under `key` afterwards holds
+`value`, the map stays sorted, and it stays within `save_data`'s limits if it was and the new entry is. -/
+theorem session_set_spec (d : C06.Data) (k : C06.Key) (val : Bytes) :
+    (∃ e, C06.dfind k (C06.setValue k val d) = some e ∧ e.value = val) ∧
+    (C06.Sorted d → C06.Sorted (C06.setValue k val d)) ∧
+    ((∀ p ∈ d, C06.withinLimits p) → k.length < C06.Gen.keyLimit → val.length < C06.Gen.dataLimit →
+      ∀ p ∈ C06.setValue k val d, C06.withinLimits p) := by
+  unfold C06.setValue
+  cases hf : C06.dfind k d with
+  | none =>
+    refine ⟨⟨⟨val, false⟩, by rw [C06.dfind_dinsert]; simp, rfl⟩, fun h => C06.sorted_dinsert _ _ _ h, ?_⟩
+    intro hl hk hv p hp
+    rcases C06.mem_dinsert hp with rfl | hp'
+    · exact ⟨hk, hv⟩
+    · exact hl p hp'
+  | some e0 =>
+    refine ⟨⟨{ e0 with value := val }, by rw [C06.dfind_dinsert]; simp, rfl⟩, fun h => C06.sorted_dinsert _ _ _ h, ?_⟩
+    intro hl hk hv p hp
+    rcases C06.mem_dinsert hp with rfl | hp'
+    · exact ⟨hk, hv⟩
+    · exact hl p hp'
+
+/-- **Session: `store_data` then `fetch_data` returns the object** — in the same request (`get` reads the map `set`
+wrote), and in a later request: `save()` serialises the map with `save_data`, the next `load()` parses it with
+`load_data` (C06 `loadData_saveData`, its `load_save_data_roundtrip`), and `fetch_data` finds the same bytes.
+Hypotheses: the session map is sorted (`std::map`) and within `save_data`'s limits, the key is shorter than 1024
+bytes and **the serialised object shorter than 2 MiB** (`Gen.dataLimit`, the 21-bit field of the `packed` record);
+plus the hypotheses of `save_load_roundtrip`.  (Which token/cookie carries `bs` to the next request, and that the
+request reads exactly this map, is C06's `request_reads_spec` / `save_commutes`; not repeated here.) -/
+theorem session_store_data_fetch_data_roundtrip [JsonCodec] (ty : Ty) (v : Val ty)
+    (hw : wf ty v = true) (hf : sizesFit ty v = true) (hj : jsonRT ty v) (hlen : (save ty v).length < 2 ^ 64)
+    (d : C06.Data) (hs : C06.Sorted d) (hl : ∀ p ∈ d, C06.withinLimits p)
+    (k : C06.Key) (hk : k.length < C06.Gen.keyLimit) (hv : (save ty v).length < C06.Gen.dataLimit)
+    (_shape : Gen.wrappersAreCompositions = true) :
+    let d1 := C06.setValue k (save ty v) d          -- store_data(k, v)
+    (∃ e s, C06.dfind k d1 = some e ∧ loadArchive ty e.value = .ok v s) ∧
+    (∃ bs, C06.saveData d1 = .ok bs ∧ C06.loadData bs = .ok d1) := by
+  intro d1
+  obtain ⟨⟨e, he, hval⟩, hsorted, hlim⟩ := session_set_spec d k (save ty v)
+  obtain ⟨s, hload, _⟩ := save_load_roundtrip ty v hw hf hj hlen
+  refine ⟨⟨e, s, he, by rw [hval]; exact hload⟩, ?_⟩
+  exact C06.loadData_saveData d1 (hsorted hs) (hlim hl hk hv)
+
+/-- At and beyond the limit the session cannot carry the object: `save()` throws (`save_data`:
+"value too long"), whatever else the map holds. -/
+theorem session_store_data_over_limit_throws [JsonCodec] (ty : Ty) (v : Val ty) (d : C06.Data) (k : C06.Key)
+    (hv : C06.Gen.dataLimit ≤ (save ty v).length) :
+    ∃ err, C06.saveData (C06.setValue k (save ty v) d) = .error err := by
+  obtain ⟨⟨e, he, hval⟩, _, _⟩ := session_set_spec d k (save ty v)
+  rw [C06.saveData_throws_iff]
+  refine ⟨(k, e), dfind_mem' he, ?_⟩
+  intro h
+  have := h.2
+  rw [hval] at this
+  omega
+
+/-- **Cache: what `fetch_data` finds is the most recent `store_data` of that key** (C07
+`fetch_returns_latest_store`): for every history of cache operations, every size limit and back-end, if the fetch
+hits with bytes `bs` then the history contains a store of exactly `bs` under `k`, performed, not expired, and
+followed by no store/remove of `k`, no clear and no rise of one of its triggers; and if those bytes were the
+serialisation of an object `v`, `fetch_data` yields `v`. -/
+theorem cache_fetch_data_returns_latest_store_data [JsonCodec] (limit : Nat) (sl : Option Nat) (ops : List C07.Op)
+    (now : C07.Time) (k : C07.Key) (bs : Bytes) (tr : List C07.Key) (dl : C07.Time) (g : C07.Gen)
+    (hit : (C07.step (C07.Props.reach limit sl ops) (.fetch now k)).2 = .hit bs tr dl g) :
+    (∃ pre post now₀ trigs gen env, ops = pre ++ C07.Op.store now₀ k bs trigs dl gen env :: post ∧
+      (∀ op ∈ post, op.invalidates k tr = false) ∧ ¬ dl < now) ∧
+    ∀ (ty : Ty) (v : Val ty), wf ty v = true → sizesFit ty v = true → jsonRT ty v → (save ty v).length < 2 ^ 64 →
+      bs = save ty v → ∃ s, loadArchive ty bs = .ok v s := by
+  obtain ⟨pre, post, now₀, trigs, gen, env, h1, _, _, h4, h5⟩ :=
+    C07.Props.fetch_returns_latest_store limit sl ops now k bs tr dl g hit
+  refine ⟨⟨pre, post, now₀, trigs, gen, env, h1, h4, h5⟩, ?_⟩
+  intro ty v hw hf hj hlen hbs
+  obtain ⟨s, h, _⟩ := save_load_roundtrip ty v hw hf hj hlen
+  exact ⟨s, by rw [hbs]; exact h⟩
+
+/-- **Cache: `store_data` then `fetch_data` returns the object** when nothing evicts it (C07
+`live_entry_always_found`: no size limit, no failing allocation): after `store_data(k, v, trigs, deadline)` and any
+operations that do not invalidate `k`, a `fetch_data(k)` at or before the deadline hits and yields `v`. -/
+theorem cache_store_data_fetch_data_roundtrip [JsonCodec] (ty : Ty) (v : Val ty)
+    (hw : wf ty v = true) (hf : sizesFit ty v = true) (hj : jsonRT ty v) (hlen : (save ty v).length < 2 ^ 64)
+    (pre post : List C07.Op) (now₀ now : C07.Time) (k : C07.Key) (trigs : List C07.Key) (dl : C07.Time)
+    (gen : Option C07.Gen) (env : C07.StoreEnv)
+    (hquiet : ∀ op ∈ pre ++ C07.Op.store now₀ k (save ty v) trigs dl gen env :: post, op.quiet)
+    (hpost : ∀ op ∈ post, op.invalidates k (C07.ownTrigs k trigs) = false) (hlive : ¬ dl < now)
+    (_shape : Gen.wrappersAreCompositions = true) :
+    ∃ bs tr g s,
+      (C07.step (C07.Props.reach 0 none (pre ++ C07.Op.store now₀ k (save ty v) trigs dl gen env :: post))
+        (.fetch now k)).2 = .hit bs tr dl g ∧ loadArchive ty bs = .ok v s := by
+  obtain ⟨s, h, _⟩ := save_load_roundtrip ty v hw hf hj hlen
+  exact ⟨_, _, _, s, C07.Props.live_entry_always_found pre post now₀ now k (save ty v) trigs dl gen env hquiet hpost hlive, h⟩
+
+/-- The abstract form (any store with `get k (set k d σ) = d`), kept for stores other than the two above. -/
 theorem wrappers_roundtrip [JsonCodec] {Store Key : Type} (set : Key → Bytes → Store → Store) (get : Key → Store → Bytes)
     (hstore : ∀ k d σ, get k (set k d σ) = d)
     (ty : Ty) (v : Val ty) (hw : wf ty v = true) (hf : sizesFit ty v = true) (hj : jsonRT ty v)
@@ -216,6 +324,27 @@ example : wf (.pair (.mmap (.pod 1) (.mset .str)) (.arr .str 2)) ([([1], [[97], 
 /-- a store meeting `hstore`: a single cell -/
 example : ∀ (k : Unit) (d : Bytes) (σ : Bytes), (fun (_ : Unit) (σ : Bytes) => σ) k ((fun (_ : Unit) (d : Bytes) (_ : Bytes) => d) k d σ) = d :=
   fun _ _ _ => rfl
+
+/-- hypotheses of the session theorems: a sorted two-entry session map within `save_data`'s limits; the limits are
+1024 and 2 MiB -/
+example : C06.Sorted [([97], ⟨[1], false⟩), ([98], ⟨[], true⟩)] ∧
+    (∀ p ∈ [(([97] : Bytes), (⟨[1], false⟩ : C06.Entry)), ([98], ⟨[], true⟩)], C06.withinLimits p) ∧
+    C06.Gen.keyLimit = 1024 ∧ C06.Gen.dataLimit = 2 * 1024 * 1024 := by
+  refine ⟨by simp [C06.Sorted]; decide, ?_, rfl, rfl⟩
+  intro p hp
+  simp only [List.mem_cons, List.not_mem_nil, or_false] at hp
+  rcases hp with rfl | rfl <;> exact ⟨by decide, by decide⟩
+
+/-- hypotheses of `cache_store_data_fetch_data_roundtrip`: a history around the store in which nothing fails and
+nothing invalidates key `k` (another key stored, a fetch, a rise of an unrelated trigger) -/
+example : (∀ op ∈ [C07.Op.store 0 [107, 50] [1] [] 10] ++ C07.Op.store 5 [107] [2, 3] [[116]] 100 none {} ::
+      [C07.Op.fetch 6 [107], C07.Op.rise [120]], op.quiet) ∧
+    (∀ op ∈ [C07.Op.fetch 6 [107], C07.Op.rise [120]], op.invalidates [107] (C07.ownTrigs [107] [[116]]) = false) ∧
+    ¬ (100 : C07.Time) < 50 := by
+  refine ⟨?_, by decide, by decide⟩
+  intro op hop
+  simp only [List.cons_append, List.nil_append, List.mem_cons, List.not_mem_nil, or_false] at hop
+  rcases hop with rfl | rfl | rfl | rfl <;> simp [C07.Op.quiet]
 
 /-- a malformed set archive (elements 2, 1, 2 in that order) loads as the sorted, duplicate-free set {1, 2} -/
 example : ∃ s, loadArchive (.set (.pod 1)) [8,0,0,0, 3,0,0,0,0,0,0,0, 1,0,0,0, 2, 1,0,0,0, 1, 1,0,0,0, 2] = .ok [[1], [2]] s :=
